@@ -166,6 +166,7 @@ package twig
 // (C04: nothing but the white space a dash asks for is taken out of the literal text)
 //@ func (*ZeroAllocTokenizer).ApplyWhitespaceControl props: C13 C04
 //@   modifies elems(t.result)
+//@   ghostassign wsd gstore(old(wsd), t, 1)
 //@   loop 1 invariant 0 <= i && i <= len(t.result) && wsDone(i)
 //@   ensures wsDone(len(t.result))
 
@@ -175,7 +176,7 @@ package twig
 //@ list errorflow (*RenderContext).ApplyFilter (*RenderContext).ApplyFilterChain (*RenderContext).DetectFilterChain
 //@ list errorflow (*RenderContext).CallFunction (*RenderContext).CallMacro (*MacroNode).CallMacro renderVariableString
 //@ list errorflow (*ForNode).renderForLoop (*Engine).Render (*Engine).RenderTo (*Template).Render (*Template).RenderTo DebugRender
-//@ list errorflow (*Engine).Load
+//@ list errorflow (*Engine).Load (*ChainLoader).Load
 // converters whose errors are part of a filter's own definition, not failures of a callback
 //@ list errorflow_internal toInt toFloat64 strconv.Atoi strconv.ParseFloat strconv.ParseInt time.Parse
 // variable and attribute lookups: "undefined variables and attributes print as empty" is a
@@ -217,7 +218,7 @@ package twig
 //@   flag errretry (*Engine).Load
 // `ignore missing` turns a template that does not exist into empty output; every other failure
 // is reported
-//@ func (*IncludeNode).Render props: C17 C11
+//@ func (*IncludeNode).Render props: C17 C11 C10
 //@   flag rely_tree yes
 //@   atcall Node.Render a2 != ctx && freshRef(a2)
 //@   atcall Node.Render n.only ==> a2.parent == nil
@@ -700,7 +701,7 @@ package twig
 //@ func (*ApplyNode).Render props: C07
 //@   atcall[C07] (*RenderContext).ApplyFilter a0 == ctx && a1 == n.filter && typeIs(a2, "string")
 //@   atcall[C07] WriteString a0 == w && isFilterEvent(fl) && lastFilterCtx(fl) == ctx && lastFilterName(fl) == n.filter && a1 == fn_ToString_0(ctx, lastFilterRes(fl))
-//@   ensures[C07] ret == nil ==> isFilterEvent(fl) && lastFilterCtx(fl) == ctx && lastFilterName(fl) == n.filter
+//@   ensures[C07,C17,C06] ret == nil ==> isFilterEvent(fl) && lastFilterCtx(fl) == ctx && lastFilterName(fl) == n.filter
 //@ func NewFilterViolation props: C06 C07
 //@   ensures ret != nil
 //@ func NewFunctionViolation props: C06
@@ -745,6 +746,14 @@ package twig
 //@   atcall[C16] (*Template).Compile a0 == template
 //@   atcall[C16] SerializeCompiledTemplate a0 == compiled
 //@   ensures[C16] ret == nil ==> lwd == lser
+// the compiled loader answers with the source of what it decoded, in this call, from the file it read
+// in this call (C16: files written by the compiled loader are read back the same way; C15: a file
+// rewritten since the last load is seen)
+//@ ghost nrd Int
+//@ impl (*CompiledLoader).Load props: C16
+//@   atcall[C16,C15] os.ReadFile a0 == filePath
+//@   atcall[C16,C15] DeserializeCompiledTemplate a0 == data
+//@   ensures[C16,C15] ret1 == nil ==> nrd == old(nrd) + 1 && ret0 == compiled.Source
 // ... and its tree is the one the parser yields for the compiled source, whenever the compiled data
 // carries no serialised tree (a serialised tree that decodes is trusted to be that template's)
 //@ ghost lpn Iface
@@ -801,6 +810,16 @@ package twig
 // the modification time the file system loader answers with comes from the last stat it made, and
 // for a remembered path that is the stat of that path: a template whose file is gone is stale,
 // whatever other directory has a file of that name
+// Exists answers from the file system as it is now, not from what an earlier Load remembered: "yes"
+// only when the stat it just made succeeded (C15: the first loader that has the name wins - a file that
+// was removed no longer makes this loader the owner)
+//@ func (*FileSystemLoader).Exists props: C15
+//@   loop 1 invariant[C15] nstat >= old(nstat)
+//@   ensures[C15] ret ==> laststat && nstat > old(nstat)
+// the error of a failed Load matches ErrTemplateNotFound whatever the loaders' own errors are
+//@ func (*loadError).Unwrap props: C15
+//@   ensures[C15] len(ret) >= 1
+//@   ensures[C15] ret[0] == ErrTemplateNotFound
 //@ impl (*FileSystemLoader).GetModifiedTime props: C15
 //@   ensures[C15] ret1 == nil ==> laststat
 //@   ensures[C15] ok ==> nstat == old(nstat) + 1
@@ -931,7 +950,8 @@ package twig
 //@   loop 3 invariant[C10] parentContent == nextDef().body && cleanCtx != ctx && freshRef(cleanCtx)
 //@   loop 3 invariant[C10] ctx.currentBlock == old(ctx.currentBlock) && ctx.blockLevel == old(ctx.blockLevel)
 //@   atcall Node.Render a2 == cleanCtx && a2 != ctx && freshRef(a2)
-//@   loop 3 invariant[C10] rangeindex + 1 == 0 ==> cleanCtx.blockLevel == ctx.blockLevel + 1 && cleanCtx.currentBlock == ctx.currentBlock
+// (C05: the level moves up with every parent() call, so a chain of parent() calls ends at the base)
+//@   loop 3 invariant[C10,C05] rangeindex + 1 == 0 ==> cleanCtx.blockLevel == ctx.blockLevel + 1 && cleanCtx.currentBlock == ctx.currentBlock
 //@   loop 3 invariant[C10] rangeindex + 1 == 0 ==> (forall k string :: has(cleanCtx.blocks, k) == has(ctx.blocks, k) && (has(ctx.blocks, k) ==> cleanCtx.blocks[k] == ctx.blocks[k]))
 //@   loop 3 invariant[C10] rangeindex + 1 == 0 ==> (forall k string :: has(cleanCtx.parentBlocks, k) == has(ctx.parentBlocks, k) && (has(ctx.parentBlocks, k) ==> cleanCtx.parentBlocks[k] == ctx.parentBlocks[k]))
 //@   loop 3 invariant[C10] rangeindex + 1 == 0 ==> (forall k string :: has(cleanCtx.context, k) == has(ctx.context, k) && (has(ctx.context, k) ==> cleanCtx.context[k] == ctx.context[k]))
@@ -1033,6 +1053,15 @@ package twig
 // A macro name is resolved in the innermost context that binds it: the context's own macros first,
 // otherwise exactly what the parent's lookup yields (the event is named, not interpreted), and
 // nothing without a parent - so a call reaches the same macro from every nesting depth.
+// a name written relative to a template is resolved against the nearest template up the chain of
+// contexts: the one being rendered, not the one that included it (C10: the parent an included child
+// extends; C11, C02)
+//@ func (*RenderContext).currentTemplateName props: C10 C11
+//@   pure
+//@   loop 1 invariant c == ctx || (ctx.lastLoadedTemplate == nil && (c == ctx.parent || (ctx.parent != nil && ctx.parent.lastLoadedTemplate == nil)))
+//@   ensures[C10,C11,C02] ctx.lastLoadedTemplate != nil ==> ret == ctx.lastLoadedTemplate.name
+//@   ensures[C10,C11,C02] ctx.lastLoadedTemplate == nil && ctx.parent != nil && ctx.parent.lastLoadedTemplate != nil ==> ret == ctx.parent.lastLoadedTemplate.name
+//@   ensures[C10,C11,C02] ctx.lastLoadedTemplate == nil && ctx.parent == nil ==> ret == ""
 //@ func (*RenderContext).definesVariable props: C09
 //@   pure
 //@   loop 1 invariant c == ctx || (!has(ctx.context, name) && !(ctx.env != nil && has(ctx.env.globals, name)))
@@ -1343,7 +1372,12 @@ package twig
 //@   loop 2 invariant 0 <= i
 // both tokenizers end their result with the EOF token the parser relies on, and the result is the
 // tokenizer's own buffer (which ApplyWhitespaceControl then edits in place)
+// wsd[t] is 1 once whitespace control has been applied to what tokenizer t produced, 0 from the moment
+// t tokenizes again (C13: a dash trims in templates of every size - the trimming is a pass of its own,
+// which Parse has to run after either tokenizer)
+//@ ghost wsd (Array Int Int)
 //@ group tokresult props: C05
+//@   ghostassign wsd gstore(old(wsd), t, 0)
 //@   ensures err == nil ==> len(ret0) >= 1
 // (C13, C14, C04: the tokens the parser reads are the ones whitespace control has edited)
 //@   ensures[C05,C13,C14,C04] err == nil ==> ret0 == t.result
@@ -1398,6 +1432,7 @@ package twig
 //@ func (*Parser).Parse props: C14 C04 C05
 //@   atcall[C14,C04] GetTokenizer a0 == source
 //@   atcall[C14,C04] (*Parser).parseOuterTemplate p.tokens == tokenizer.result && p.tokenIndex == 0
+//@   atcall[C13,C14] (*Parser).parseOuterTemplate gsel(wsd, tokenizer) == 1
 //@   atcall[C14,C04] NewRootNode#1 a0 == nodes
 // ... and of all of it: the outer parser stops early only at a closing tag, which at the top level
 // nothing opened - the rest of the template would vanish from the output without an error
@@ -1415,7 +1450,10 @@ package twig
 //@ define asStr(X) unboxAs(X, "string")
 // first / last: element 0 / len-1 of a list and nothing for an empty one; the first / last character
 // of a string
+// (first of a map with string keys: the keys are collected, ordered by sort.Strings - the order a for
+// loop and keys use - and the entry of the first one is answered)
 //@ func (*CoreExtension).filterFirst props: C19
+//@   atcall[C19] sort.Strings a0 == keys
 //@   ensures[C19] typeIs(value, "[]interface{}") ==> ret1 == nil && ret0 == ite(len(asList(value)) > 0, asList(value)[0], nil)
 //@   ensures[C19] typeIs(value, "string") && len(asStr(value)) > 0 ==> ret1 == nil && typeIs(ret0, "string") && unboxAs(ret0, "string") == str_of_rune(runes_of(asStr(value))[0])
 //@ func (*CoreExtension).filterLast props: C19
@@ -1551,8 +1589,12 @@ package twig
 //@   arith checked
 //@ func (*CoreExtension).filterSort props: C05
 //@   atcall[C05] sort.SliceStable ufi_kind(result) == 23 && uf_canIface(result)
+// sort on an untyped list orders the elements themselves by their string forms: the comparison
+// handed to package sort speaks about positions i and j of the very slice that is being sorted (C19:
+// sort returns an ordered permutation)
 //@ func (*CoreExtension).filterSort$1 props: C05
 //@   requires 0 <= i && i < len(result) && 0 <= j && j < len(result)
+//@   ensures[C19] ret == (fn_toString_0(result[i]) < fn_toString_0(result[j]))
 //@ func evictLRUEntries$1 props: C05
 //@   requires 0 <= i && i < len(entries) && 0 <= j && j < len(entries)
 
